@@ -129,7 +129,7 @@ struct producer {
 					if(R(2)) usleep(R(1000));
 					srv->cancel_io_events(sp[0]);
 					// wait until the cancelled / fired handlers ran before the descriptor is armed again
-					for(int spin=0;spin<20000;spin++) {
+					for(int spin=0;spin<100000;spin++) {
 						bool a = in_h<0 || hstates[in_h].runs.load()>0;
 						bool b = out_h<0 || hstates[out_h].runs.load()>0;
 						if(a && b) break;
@@ -150,7 +150,7 @@ struct producer {
 			if(hstates[timers[i].second].runs.load()==0)
 				srv->cancel_timer_event(timers[i].first);
 		srv->cancel_io_events(sp[0]);
-		for(int spin=0;spin<30000;spin++) {
+		for(int spin=0;spin<100000;spin++) {
 			bool a = in_h<0 || hstates[in_h].runs.load()>0;
 			bool b = out_h<0 || hstates[out_h].runs.load()>0;
 			if(a && b) break;
@@ -194,7 +194,7 @@ static bool pingpong(int nops,unsigned seed,std::vector<aio::event_handler> &kee
 			srv->cancel_timer_event(id);
 		}
 		ok=false;
-		for(int spin=0;spin<40000;spin++) { if(hstates[h].runs.load()>0) { ok=true; break; } usleep(100); }
+		for(int spin=0;spin<100000;spin++) { if(hstates[h].runs.load()>0) { ok=true; break; } usleep(100); }
 		progress++;
 	}
 	close(sp[0]); close(sp[1]);
@@ -233,7 +233,7 @@ static void cancelrace(int nops,unsigned seed,std::vector<aio::event_handler> &k
 		}
 		srv->cancel_io_events(sp[0]);
 		bool ok=false;
-		for(int spin=0;spin<20000;spin++) { if(hstates[h].runs.load()>0) { ok=true; break; } if(spin==200) race_slow=true; usleep(100); }
+		for(int spin=0;spin<100000;spin++) { if(hstates[h].runs.load()>0) { ok=true; break; } if(spin==200) race_slow=true; usleep(100); }
 		race_slow=false;
 		if(!ok) break;
 		progress++;
@@ -267,14 +267,14 @@ static void closerace(int nops,unsigned seed,std::vector<aio::event_handler> &ke
 			// the event really happens (a socket is always writeable / a byte is waiting): the handler has to be
 			// invoked with success without any cancel - also on a descriptor number that was used and closed before
 			bool fired=false;
-			for(int spin=0;spin<20000;spin++) { if(hstates[hs[0]].runs.load()>0) { fired=true; break; } usleep(100); }
+			for(int spin=0;spin<100000;spin++) { if(hstates[hs[0]].runs.load()>0) { fired=true; break; } usleep(100); }
 			if(!fired) break;
 		}
 		if(R(2)) { long long until=ptime::microseconds(ptime::now())+R(150); while(ptime::microseconds(ptime::now())<until) ; }
 		srv->cancel_io_events(sp[0]);
 		close(sp[0]); close(sp[1]);          // at once: the cancel may still be queued
 		bool ok=false;
-		for(int spin=0;spin<20000;spin++) {
+		for(int spin=0;spin<100000;spin++) {
 			ok=true; for(int i=0;i<cnt;i++) if(hstates[hs[i]].runs.load()==0) ok=false;
 			if(ok) break; usleep(100);
 		}
@@ -359,7 +359,7 @@ int main(int argc,char **argv)
 				int h=next_h++; plain_handler f={h}; aio::handler hh(f); keep2[0].push_back(hh);
 				bv::emit("\"e\":\"Reg\",\"h\":%d,\"p\":%lu,\"kind\":\"post\"",h,pid_of(hh.get_pointer().get()));
 				reg_count++; srv->post(hh);
-				for(int spin=0;spin<30000 && hstates[h].runs.load()==0;spin++) usleep(100);
+				for(int spin=0;spin<100000 && hstates[h].runs.load()==0;spin++) usleep(100);
 				usleep(2000);
 			}
 			bv::emit("\"e\":\"Quiesce\",\"reg\":%ld,\"ran\":%ld",reg_count.load(),ran_count.load());
@@ -377,7 +377,7 @@ int main(int argc,char **argv)
 			for(int i=0;i<nt;i++) { dts[i].t=new aio::deadline_timer(*srv); dts[i].keep=&keep[0]; dt_start st={i,1+(int)((seed+r+i)%nops)}; srv->post(st); }
 			usleep(30000 + 3000*nops);
 			for(int i=0;i<nt;i++) { dt_cancel dc={i}; srv->post(dc); }
-			for(int spin=0;spin<30000 && ran_count.load()<reg_count.load();spin++) usleep(100);
+			for(int spin=0;spin<100000 && ran_count.load()<reg_count.load();spin++) usleep(100);
 			bv::emit("\"e\":\"Quiesce\",\"reg\":%ld,\"ran\":%ld",reg_count.load(),ran_count.load());
 			if(ran_count.load()<reg_count.load()) { bv::close(); _exit(0); }
 			srv->stop();
@@ -390,7 +390,7 @@ int main(int argc,char **argv)
 		if(mode=="closerace") {
 			usleep(1000);
 			closerace(nops,seed*19+r*5+reactor,keep[0]);
-			for(int spin=0;spin<30000 && ran_count.load()<reg_count.load();spin++) usleep(100);
+			for(int spin=0;spin<100000 && ran_count.load()<reg_count.load();spin++) usleep(100);
 			bv::emit("\"e\":\"Quiesce\",\"reg\":%ld,\"ran\":%ld",reg_count.load(),ran_count.load());
 			if(ran_count.load()<reg_count.load()) { bv::close(); _exit(0); } // a loop that lost handlers may never stop: do not join it
 			srv->stop();
@@ -405,7 +405,7 @@ int main(int argc,char **argv)
 			booster::thread pt(rp);
 			cancelrace(nops,seed*17+r*3+reactor,keep[0]);
 			race_done=true; pt.join();
-			for(int spin=0;spin<50000 && ran_count.load()<reg_count.load();spin++) usleep(100);
+			for(int spin=0;spin<100000 && ran_count.load()<reg_count.load();spin++) usleep(100);
 			bv::emit("\"e\":\"Quiesce\",\"reg\":%ld,\"ran\":%ld",reg_count.load(),ran_count.load());
 			if(ran_count.load()<reg_count.load()) { bv::close(); _exit(0); } // a loop that lost handlers may never stop: do not join it
 			srv->stop();
